@@ -24,6 +24,7 @@ pub proof fn lemma_modifier_consts_in_legend()
         forall|k: int| 0 <= k < 10 ==> (#[trigger] SemanticTokenModifierKind::sp_all_modifier_kinds()[k]).0 == two_pow(k as nat) /*@C26.legend.modifier-bit-k-is-entry-k*/,
         forall|k: int| 0 <= k < 10 ==> legend_bits(#[trigger] SemanticTokenModifierKind::sp_all_modifier_kinds()[k]) /*@C26.legend.modifier-bits-in-legend*/,
         legend_bits(SemanticTokenModifierKind(0)),
+        two_pow(SemanticTokenModifierKind::sp_all_modifier_kinds().len()) == 1024,
 {
     reveal_with_fuel(two_pow, 11);
     assert(1u32 << 0 == 1) by (bit_vector);
@@ -72,5 +73,44 @@ pub proof fn lemma_encoded_is_ordered(pushed: Seq<BasicSemanticTokenData>, sorte
         if i < j {
             assert(pos_le(tok_pos(sorted[i]), tok_pos(sorted[j])));
         }
+    }
+}
+
+/// appending an entry whose pieces are inside the legend keeps the builder invariant
+pub proof fn lemma_legend_inv_push(s: Seq<SemanticTokenData>, d: SemanticTokenData)
+    requires
+        legend_inv(s),
+        forall|k: int| 0 <= k < pieces(d).len() ==> in_legend(#[trigger] pieces(d)[k]),
+    ensures legend_inv(s.push(d)),
+{
+    assert(s.push(d).drop_last() =~= s);
+    assert(flat(s.push(d)) == flat(s) + pieces(d));
+}
+
+/// what `push_data` appends carries the given type index and modifier bitset on every piece
+pub proof fn lemma_pushed_in_legend(d: SemanticTokenData, mls: bool, s: (usize, usize), e: (usize, usize), typ: u32, modifiers: u32)
+    requires pushed_ok(d, mls, s, e, typ, modifiers), raw_in_legend(typ, modifiers),
+    ensures forall|k: int| 0 <= k < pieces(d).len() ==> in_legend(#[trigger] pieces(d)[k]),
+{
+}
+
+/// the encoder carries type index and modifier bitset unchanged, so the emitted tokens are inside the legend when
+/// the pushed pieces are
+pub proof fn lemma_encoded_in_legend(pushed: Seq<BasicSemanticTokenData>, sorted: Seq<BasicSemanticTokenData>, r: Seq<SemanticToken>)
+    requires
+        encodes(pushed, sorted, r),
+        forall|j: int| 0 <= j < pushed.len() ==> in_legend(#[trigger] pushed[j]),
+    ensures forall|i: int| 0 <= i < r.len() ==> token_in_legend(#[trigger] r[i]),
+{
+    sorted.to_multiset_ensures();
+    pushed.to_multiset_ensures();
+    assert forall|i: int| 0 <= i < r.len() implies token_in_legend(#[trigger] r[i]) by {
+        let x = sorted[i];
+        assert(sorted.contains(x));
+        assert(pushed.to_multiset().count(x) > 0);
+        assert(pushed.contains(x));
+        let j = choose|j: int| 0 <= j < pushed.len() && pushed[j] == x;
+        assert(in_legend(pushed[j]));
+        assert(carries(r[i], sorted[i]));
     }
 }
